@@ -6,6 +6,8 @@ import (
 	"fmt"
 	"io"
 	"os"
+
+	"github.com/mikefarah/yq/v4/pkg/verifhook"
 )
 
 // A yaml expression evaluator that runs the expression multiple times for each given yaml document.
@@ -83,6 +85,7 @@ func (s *streamEvaluator) Evaluate(filename string, reader io.Reader, node *Expr
 		return 0, err
 	}
 	for {
+		verifhook.Yield("decode")
 		candidateNode, errorReading := decoder.Decode()
 
 		if errors.Is(errorReading, io.EOF) {
@@ -102,6 +105,7 @@ func (s *streamEvaluator) Evaluate(filename string, reader io.Reader, node *Expr
 		if errorParsing != nil {
 			return currentIndex, errorParsing
 		}
+		verifhook.Yield("print")
 		err := printer.PrintResults(result.MatchingNodes)
 
 		if err != nil {
